@@ -555,10 +555,10 @@ func checkC45(r *mon.Run) {
 		return
 	}
 
-	n := devLimit(r.Pick(800, 20000))
+	n := devLimit(r.Pick(600, 16000))
 	parallel(n, workers(), func(i int) { oneHPHistory(r, i, dir) })
 
-	r.Require(int64(n)*15, 60,
+	r.Require(int64(n)*15, 45,
 		"register_ok", "register_unknown-group", "register_not-writer", "register_not-registry", "register_not-down",
 		"register_not-verified", "register_equal_version_second_group",
 		"request_ok", "request_unknown-group", "request_not-member", "request_not-authoritative",
